@@ -392,7 +392,7 @@ func c18units(tier string) []mc.Unit {
 	}
 	// homopolymer and other single-residue runs: proteins L^k (k = 1..10) on compromise tables in which one codon of L
 	// survives the cut-off; default answers for every draw, and for one amino acid every answer of one draw (one deviation) at k = 5
-	for _, id := range []int{1, 11} {
+	for _, id := range []int{1, 2, 4, 11, 13} { // 2, 13: two codons for M, both of them start codons; 4: two for W
 		id := id
 		us = append(us, mc.Unit{Name: fmt.Sprintf("optimize-runs/code=%d", id), Serial: true, Weight: 200, Run: func(r *mc.Recorder) {
 			base := viewOf(codon.GetCodonTable(id))
@@ -425,8 +425,19 @@ func c18units(tier string) []mc.Unit {
 					if err != nil {
 						continue
 					}
-					for k := 1; k <= 10; k++ {
+					for k := 1; k <= 12; k++ {
 						protein := strings.Repeat(l, k)
+						if k == 11 {
+							protein = "M" + strings.Repeat(l, 3) // a gene: start, then the run
+						}
+						if k == 12 {
+							protein = strings.Repeat(l, 2) + "*"
+						}
+						if k > 10 {
+							if _, ok := syn["M"]; !ok {
+								continue
+							}
+						}
 						dev := 0
 						if k == 5 && l == letters[0] && survivor == 0 {
 							dev = 1
@@ -445,15 +456,21 @@ func c18units(tier string) []mc.Unit {
 							if err != nil {
 								return true
 							}
-							if len(dna) != 3*k {
-								r.Failf("optimized-gene-respects-cutoff", cc, []string{"runs"}, fmt.Sprintf("%d bases", 3*k), q(dna))
+							if len(dna) != 3*len(protein) {
+								r.Failf("optimized-gene-respects-cutoff", cc, []string{"runs"}, fmt.Sprintf("%d bases", 3*len(protein)), q(dna))
 								return false
 							}
 							for i := 0; i < len(dna); i += 3 {
 								cd := dna[i : i+3]
-								sa, sb := float64(va.w[cd])/float64(sumA), float64(vb.w[cd])/float64(sumB)
-								if va.letter[cd] != l || sa < cut-1e-4 || sb < cut-1e-4 {
-									r.Failf("optimized-gene-respects-cutoff", cc, []string{"runs"}, fmt.Sprintf("%s codons with share >= %g in both tables", l, cut), fmt.Sprintf("%s at residue %d (shares %.4f, %.4f) in %s", cd, i/3+1, sa, sb, dna))
+								res := protein[i/3 : i/3+1]
+								tA, tB := 0, 0
+								for _, c := range syn[res] {
+									tA += va.w[c]
+									tB += vb.w[c]
+								}
+								sa, sb := float64(va.w[cd])/float64(tA), float64(vb.w[cd])/float64(tB)
+								if va.letter[cd] != res || sa < cut-1e-4 || sb < cut-1e-4 {
+									r.Failf("optimized-gene-respects-cutoff", cc, []string{"runs"}, fmt.Sprintf("%s codons with share >= %g in both tables", res, cut), fmt.Sprintf("%s at residue %d (shares %.4f, %.4f) in %s", cd, i/3+1, sa, sb, dna))
 									return false
 								}
 							}
